@@ -10,7 +10,7 @@ Local Open Scope string_scope.
 Lemma RC_bytes : Forall (fun x => (x < 256)%N) tab_RC.
 Proof. apply forallb_lt256. vm_compute. reflexivity. Qed.
 
-Notation P := aes_prog.
+Local Notation P := aes_prog.
 
 Lemma genkey_explicit : forall rn p0 p1 p2 p3 p4 p5 p6 p7 p8 p9 p10 p11 p12 p13 p14 p15,
   genkey rn [p0; p1; p2; p3; p4; p5; p6; p7; p8; p9; p10; p11; p12; p13; p14; p15] =
